@@ -18,7 +18,7 @@ def run(v):
     if not proof_ok:
         v.violation("C15/proof-broken", "; ".join(problems),
                     {"theorem_or_correspondence": "Properties/C15.v", "problems": problems}, found_input=False)
-    S.store_phase(v, PID, "c15", 60, 2500, ("store_ts_ok", "store_ts_plan", "store_run"), ("C15/",), classify)
+    S.store_phase(v, PID, "c15", 40, 2500, ("store_ts_ok", "store_ts_plan", "store_run"), ("C15/",), classify)
 
 
 def replay(v, path):
